@@ -1,0 +1,21 @@
+//go:build verif
+
+package tabix
+
+import (
+	"github.com/biogo/hts/bgzf"
+	"github.com/biogo/hts/bgzf/index"
+	"github.com/biogo/hts/internal"
+)
+
+// VerifRawChunks returns the chunks found by the index before adjacent
+// chunks are merged.
+func (i *Index) VerifRawChunks(ref string, beg, end int) ([]bgzf.Chunk, error) {
+	old := adjacent
+	adjacent = index.Identity
+	defer func() { adjacent = old }()
+	return i.Chunks(ref, beg, end)
+}
+
+// VerifInternal returns the wrapped index.
+func (i *Index) VerifInternal() *internal.Index { return &i.idx }
